@@ -32,6 +32,9 @@ pub enum Case {
         d6: f64,
         #[serde(default)]
         lim: Option<(f64, u8)>,
+        /// the singular posture has model q5 = k*pi (0: wrist straight, +-1: wrist folded back)
+        #[serde(default)]
+        k: i8,
     },
 }
 
@@ -243,15 +246,20 @@ impl Property for C05 {
             cont_joints,
             prop_oneof![2 => Just((0.0, 0.0)), 1 => (Just(0.0), -1.0..1.0f64), 1 => (-1.0..1.0f64, Just(0.0)), 3 => (-1.0..1.0f64, -1.0..1.0f64)],
             prop_oneof![2 => Just(None), 1 => (0.0..1.0f64, 0u8..4).prop_map(Some)],
+            // (the continuity clauses of the statement are about wrist-singular poses with J5 = 0; a wrist folded back by pi is not generated)
+            Just(0i8),
         )
-            .prop_map(|(robot, j, (d4, d6), lim)| Case::Continuity { robot, j, d4, d6, lim });
+            .prop_map(|(robot, j, (d4, d6), lim, k)| Case::Continuity { robot, j, d4, d6, lim, k });
         prop_oneof![3 => detect, 2 => cont].boxed()
     }
     fn check(&self, c: &Case, ctx: &mut Ctx) -> Res {
         match c {
             Case::Detect { robot, j, k, delta, layers } => detect(robot, j, *k, *delta, layers, ctx),
-            Case::Continuity { robot: r, j, d4, d6, lim } => {
-                let q = wrist_joints(r, j, 0, 0.0); // model q5 = 0 exactly: J5 = offset5 * sign5
+            Case::Continuity { robot: r, j, d4, d6, lim, k } => {
+                let q = wrist_joints(r, j, *k, 0.0); // model q5 = k*pi exactly
+                if *k != 0 {
+                    ctx.class("continuity:wrist folded back (q5 = +-pi)");
+                }
                 // conditioning of the arm posture
                 let sigma = arm_conditioning(r, &q);
                 if !(sigma > 0.05) {
